@@ -573,6 +573,9 @@ func checkLockOrder(r *Reporter, p *Prog, rule string, o lockOrderOpts) {
 	for _, obj := range order {
 		fi := fns[obj]
 		ast.Inspect(fi.fd.Body, func(n ast.Node) bool {
+			if _, isGo := n.(*ast.GoStmt); isGo {
+				return false // runs on another goroutine: not part of this function's synchronous lock footprint
+			}
 			c, ok := n.(*ast.CallExpr)
 			if !ok {
 				return true
@@ -625,6 +628,9 @@ func checkLockOrder(r *Reporter, p *Prog, rule string, o lockOrderOpts) {
 		for _, obj := range order {
 			fi := fns[obj]
 			ast.Inspect(fi.fd.Body, func(n ast.Node) bool {
+				if _, isGo := n.(*ast.GoStmt); isGo {
+					return false
+				}
 				c, ok := n.(*ast.CallExpr)
 				if !ok {
 					return true
